@@ -67,7 +67,19 @@ func (c *Ctx) evalCall(e *ast.CallExpr) Value {
 				idx := s.Index()
 				switch s.Kind() {
 				case types.MethodVal:
+					if s.Obj().(*types.Func).FullName() == "(*encoding/gob.Decoder).Decode" && !c.spec {
+						return c.gobDecode(e, resultType(s.Obj().(*types.Func)))
+					}
 					recv, _ := c.walkPath(base, s.Recv(), idx[:len(idx)-1])
+					if recv.Kind == KStruct && !c.spec && hasPtrRecv(s.Obj().(*types.Func)) {
+						// method with a pointer receiver called on an addressable by-value struct field
+						target := sel.X
+						if ip, ok := c.interiorPtr(target); ok && len(idx) == 1 {
+							recv = ip
+						} else {
+							panic(engineErr("%s: pointer-receiver method on the by-value struct %s", x.pos(e.Pos()), exprText(sel.X)))
+						}
+					}
 					return c.callFunc(s.Obj().(*types.Func), recv, c.evalArgs(e.Args), e)
 				case types.FieldVal:
 					// callback stored in a field
@@ -217,6 +229,13 @@ func (c *Ctx) builtin(name string, e *ast.CallExpr) Value {
 			return c.makeChan(e, T)
 		}
 	case "new":
+		eT := c.typeOf(e.Args[0])
+		if _, _, ok := x.isRepoStruct(eT); ok && !x.isOpaqueNamed(eT) && !c.spec {
+			return c.alloc(x.zeroValue(eT), T)
+		}
+		if x.isBoxed(eT) && !c.spec {
+			return c.allocBox(eT, x.zeroValue(eT), T)
+		}
 		r := Fresh("new", SRef)
 		x.addFact(r, Neq(r, Nil))
 		return Scalar(r, T)
@@ -237,7 +256,7 @@ func (c *Ctx) builtin(name string, e *ast.CallExpr) Value {
 		r := s
 		r.T = T
 		for _, a := range e.Args[1:] {
-			v := c.coerce(c.eval(a), elemType(T))
+			v := c.boxElem(c.coerce(c.eval(a), elemType(T)), elemType(T))
 			r.Arr = Store(r.Arr, r.Len, v.S)
 			r.Len = Add(r.Len, IntLit(1))
 			r.IsNil = False
@@ -312,6 +331,15 @@ func ifaceMethodNames(o *types.Func, recv Value) []string {
 	return names
 }
 
+func hasPtrRecv(o *types.Func) bool {
+	sig, ok := o.Type().(*types.Signature)
+	if !ok || sig.Recv() == nil {
+		return false
+	}
+	_, isPtr := types.Unalias(sig.Recv().Type()).Underlying().(*types.Pointer)
+	return isPtr
+}
+
 func isInterfaceMethod(o *types.Func) bool {
 	sig, ok := o.Type().(*types.Signature)
 	if !ok || sig.Recv() == nil {
@@ -336,8 +364,19 @@ func (c *Ctx) atCall(e *ast.CallExpr, args []Value) {
 	if c.spec || c.fr == nil || c.fr.fi == nil || c.fr.fi.Spec == nil || e == nil {
 		return
 	}
-	cs := c.fr.fi.Spec.AtCall[exprText(e.Fun)]
-	if cs == nil {
+	var specs []*CallSpec
+	if cs := c.fr.fi.Spec.AtCall[exprText(e.Fun)]; cs != nil {
+		specs = append(specs, cs)
+	}
+	// "at call f<T>:" applies to the calls of f whose first argument is a T or a *T
+	if len(e.Args) > 0 && c.info != nil {
+		if n := typeName(pointee(c.typeOf(e.Args[0]))); n != "" {
+			if cs := c.fr.fi.Spec.AtCall[exprText(e.Fun)+"<"+n+">"]; cs != nil {
+				specs = append(specs, cs)
+			}
+		}
+	}
+	if len(specs) == 0 {
 		return
 	}
 	vars := map[string]Value{}
@@ -347,12 +386,14 @@ func (c *Ctx) atCall(e *ast.CallExpr, args []Value) {
 	for i, a := range args {
 		vars[fmt.Sprintf("arg%d", i)] = a
 	}
-	for _, a := range cs.Asserts {
-		g := c.specEval(a.Expr, c.st, c.x.entryState(c.fr), vars)
-		c.x.oblige(c.st, "assert", exprText(e.Fun)+clauseLabel(a), c.x.tagsOr(a.Tags, c.fr), g, e.Pos(), a.Text)
-	}
-	for _, g := range cs.Ghosts {
-		c.execGhost(g, vars, c.x.entryState(c.fr))
+	for _, cs := range specs {
+		for _, a := range cs.Asserts {
+			g := c.specEval(a.Expr, c.st, c.x.entryState(c.fr), vars)
+			c.x.oblige(c.st, "assert", exprText(e.Fun)+clauseLabel(a), c.x.tagsOr(a.Tags, c.fr), g, e.Pos(), a.Text)
+		}
+		for _, g := range cs.Ghosts {
+			c.execGhost(g, vars, c.x.entryState(c.fr))
+		}
 	}
 }
 
@@ -598,6 +639,9 @@ func (c *Ctx) havocList(locs []string, recvVars map[string]Value) {
 				if key[0] == 'H' {
 					srt = ArraySort(SRef, SInt)
 				}
+				if key == decodedKey {
+					srt = SRef
+				}
 				c.st.store[key] = Scalar(Fresh("havoc."+key[3:], srt), nil)
 				continue
 			}
@@ -626,6 +670,8 @@ func (x *Exec) expandLoc(l string, st *State) []string {
 			return []string{chanCapKey}
 		case "$timer.deadline":
 			return []string{deadlineKey}
+		case "$decoded":
+			return []string{decodedKey}
 		}
 		panic(engineErr("unknown model location %q", l))
 	}
@@ -690,8 +736,12 @@ func (c *Ctx) modularCall(fi *FuncInfo, recv Value, args []Value, e *ast.CallExp
 	vars := x.bindSpecVars(fi, recv, args)
 	callee := &Ctx{x: x, st: c.st, fr: nil, spec: true, pkg: fi.Pkg}
 	_ = callee
+	// the callee's clauses do not see the caller's local variables
+	sc := *c
+	sc.fr = nil
+	sc.assuming = true
 	for _, r := range sp.Requires {
-		g := c.specEvalIn(fi.Pkg, r.Expr, c.st, nil, vars)
+		g := sc.specEvalIn(fi.Pkg, r.Expr, c.st, nil, vars)
 		x.oblige(c.st, "callpre", fi.Key+clauseLabel(r), x.tagsOr(r.Tags, c.fr), g, e.Pos(), r.Text)
 	}
 	pre := c.st.Clone()
@@ -703,10 +753,48 @@ func (c *Ctx) modularCall(fi *FuncInfo, recv Value, args []Value, e *ast.CallExp
 	rt := resultType(fi.Obj)
 	res := c.arbitrary("ret."+fi.Decl.Name.Name, rt)
 	x.bindResults(fi, res, vars)
+	if specSaysFreshResult(sp) && rt != nil && res.Kind == KScalar && res.S.Sort == SRef {
+		// the result is an object the callee allocated: its fields are not those of any object of the
+		// caller's heap (the callee's frame condition is about the objects that existed before the call)
+		if _, _, ok := x.isRepoStruct(pointee(rt)); ok {
+			prefix := "H:" + typeName(pointee(rt)) + "."
+			for _, key := range x.allLocations() {
+				if !strings.HasPrefix(key, prefix) {
+					continue
+				}
+				T := x.locTypes[key]
+				if T == nil {
+					continue
+				}
+				h := x.load(c.st, key, T)
+				nv := zip2(h, liftLike(h, x.freshValue("fresh."+key[2:], T)), func(arr, val *Term) *Term { return Store(arr, res.S, val) })
+				nv.T = T
+				x.storeTo(c.st, key, nv)
+			}
+		}
+	}
 	for _, en := range sp.Ensures {
-		c.st.assume(c.specEvalIn(fi.Pkg, en.Expr, c.st, pre, vars))
+		c.st.assume(sc.specEvalIn(fi.Pkg, en.Expr, c.st, pre, vars))
 	}
 	return res
+}
+
+// specSaysFreshResult: the contract has a clause fresh(result).
+func specSaysFreshResult(sp *FuncSpec) bool {
+	found := false
+	for _, en := range sp.Ensures {
+		ast.Inspect(en.Expr, func(n ast.Node) bool {
+			if ce, ok := n.(*ast.CallExpr); ok {
+				if id, ok := ce.Fun.(*ast.Ident); ok && id.Name == "fresh" && len(ce.Args) == 1 {
+					if a, ok := ce.Args[0].(*ast.Ident); ok && a.Name == "result" {
+						found = true
+					}
+				}
+			}
+			return !found
+		})
+	}
+	return found
 }
 
 func (c *Ctx) havocListIn(pkg *PkgInfo, locs []string) {
@@ -915,6 +1003,8 @@ func (c *Ctx) intrinsic(o *types.Func, recv Value, args []Value, e *ast.CallExpr
 	case "(encoding/binary.littleEndian).Uint16", "(encoding/binary.bigEndian).Uint16":
 		c.oblige("bounds", exprText(e), Ge(args[0].Len, IntLit(2)), e.Pos())
 		return c.arbitrary("binary.Uint16", rt)
+	case "(*encoding/gob.Encoder).Encode":
+		return c.arbitrary("gob.Encode", rt)
 	case "(*go.uber.org/zap.Logger).Fatal", "(*go.uber.org/zap.Logger).Panic", "os.Exit":
 		c.st.assume(False)
 		return Value{Kind: KNone}
